@@ -119,6 +119,12 @@ def mutants(data, rng, n, others=()):
             b = bytearray(data)
             b[i] ^= 0x20
             add(b)
+    # dotted names (host names, OIDs, versions): an empty component - the character next to a dot made a dot as well
+    for i in range(1, L - 1):
+        if (data[i - 1] == 0x2e or data[i + 1] == 0x2e) and data[i] != 0x2e and (0x30 <= data[i] <= 0x39 or 0x41 <= data[i] <= 0x5a or 0x61 <= data[i] <= 0x7a):
+            b = bytearray(data)
+            b[i] = 0x2e
+            add(b)
     for v in ber_variants(data):
         add(v)
     n = n + len(out)
